@@ -167,6 +167,18 @@ CHECKS.update({
     ),
 })
 
+CHECKS.update({
+    "C21": (
+        "generated expressions and mappings; oracle = interpreter value of e in an environment where each mapped terminal (and its derivatives, via jets) takes its image's value vs value of replace(e, m)",
+        "Hypothesis-generated expressions/forms (full grammar incl. derivatives, variables, restrictions) and mappings of "
+        "1-3 coefficients/constants/arguments/x to terminals or generated expressions (swaps and self-referential images "
+        "included): the value of replace(e, m) must equal the value of e with simultaneously substituted terminals; "
+        "shape-changing mappings must raise; mappings that hit nothing must return an equal expression.",
+        "Trusts the interpreter's substitution environment (images evaluated without substitution).",
+        "4/C21",
+    ),
+})
+
 NOT_YET = {}
 
 
